@@ -21,7 +21,7 @@ def make(cfg, mon, flow=None):
     return a, p
 
 
-def one_run(cfg, path, fault_at=None, resume=False, train=None, in_context=False, finish_resume=False):
+def one_run(cfg, path, fault_at=None, resume=False, train=None, in_context=False, finish_resume=False, resume_kwargs=None):
     """Run through Aspire.sample_posterior(checkpoint_path=path) with a zuko flow."""
     import _kernel
     import orng
@@ -42,7 +42,8 @@ def one_run(cfg, path, fault_at=None, resume=False, train=None, in_context=False
     out.exception, out.result = None, None
     try:
         if resume:
-            a = Aspire.resume_from_file(path, log_likelihood=mon.log_likelihood, log_prior=mon.log_prior)
+            extra = {"resume_kwargs": dict(resume_kwargs)} if resume_kwargs else {}
+            a = Aspire.resume_from_file(path, log_likelihood=mon.log_likelihood, log_prior=mon.log_prior, **extra)
         else:
             a, _ = make(cfg, mon)
             rng = np.random.default_rng(cfg["seed"] + 7)
